@@ -10,6 +10,8 @@ import (
 	"fmt"
 	"io"
 	"os"
+	"sync/atomic"
+	"time"
 
 	"gendrv/rt"
 %s
@@ -36,6 +38,8 @@ type Out struct {
 	Dump   [][]int     ` + "`json:\"dump,omitempty\"`" + `
 	Trans  []int       ` + "`json:\"trans,omitempty\"`" + `
 	Err    string      ` + "`json:\"err,omitempty\"`" + `
+	Job    int         ` + "`json:\"job\"`" + `
+	Pos    int         ` + "`json:\"pos\"`" + `
 	History []string   ` + "`json:\"history,omitempty\"`" + `
 	Results []rt.Result ` + "`json:\"results,omitempty\"`" + `
 }
@@ -64,6 +68,19 @@ func capture(f func()) string {
 	return string(b)
 }
 
+// watchdog: a generated parser that loops without calling the lexer or an
+// action burns no fuel. If one parse takes longer than the limit (seconds of
+// wall clock for something that normally takes microseconds) the driver
+// reports it as a hang and exits with status 98; the harness resumes with the
+// next job.
+var (
+	runStart  int64 // unix nanoseconds, 0 = no parse in progress
+	curJob    int64
+	curPos    int64
+	curPkg    atomic.Value
+	curInput  atomic.Value
+)
+
 func main() {
 	if len(os.Args) > 3 && os.Args[1] == "sched" {
 		schedMain(os.Args[2], os.Args[3])
@@ -80,6 +97,22 @@ func main() {
 	w := bufio.NewWriterSize(of, 1<<20)
 	enc := json.NewEncoder(w)
 	dec := json.NewDecoder(bufio.NewReaderSize(jf, 1<<20))
+	go func() {
+		for {
+			time.Sleep(250 * time.Millisecond)
+			st := atomic.LoadInt64(&runStart)
+			if st != 0 && time.Now().UnixNano()-st > int64(8*time.Second) {
+				// the main goroutine is stuck inside a generated parser and is not writing
+				pkg, _ := curPkg.Load().(string)
+				in, _ := curInput.Load().(string)
+				enc.Encode(Out{Pkg: pkg, Input: in, Kind: "hang", Job: int(atomic.LoadInt64(&curJob)), Pos: int(atomic.LoadInt64(&curPos))})
+				w.Flush()
+				of.Close()
+				os.Exit(98)
+			}
+		}
+	}()
+	jobNo := -1
 	for {
 		var j Job
 		if err := dec.Decode(&j); err != nil {
@@ -88,11 +121,20 @@ func main() {
 			}
 			panic(err)
 		}
+		jobNo++
 		p, ok := rt.Registry[j.Pkg]
 		if !ok {
-			enc.Encode(Out{Pkg: j.Pkg, Kind: "error", Err: "package not linked"})
+			enc.Encode(Out{Pkg: j.Pkg, Kind: "error", Err: "package not linked", Job: jobNo})
 			continue
 		}
+		begin := func(pos int, in string) {
+			curPkg.Store(j.Pkg)
+			curInput.Store(in)
+			atomic.StoreInt64(&curJob, int64(jobNo))
+			atomic.StoreInt64(&curPos, int64(pos))
+			atomic.StoreInt64(&runStart, time.Now().UnixNano())
+		}
+		end := func() { atomic.StoreInt64(&runStart, 0) }
 		if j.NStates > 0 {
 			func() {
 				defer func() {
@@ -100,33 +142,36 @@ func main() {
 						enc.Encode(Out{Pkg: j.Pkg, Kind: "dump", Err: fmt.Sprint(e)})
 					}
 				}()
-				enc.Encode(Out{Pkg: j.Pkg, Kind: "dump", Dump: p.Dump(j.NStates, j.NSyms)})
+				enc.Encode(Out{Pkg: j.Pkg, Kind: "dump", Dump: p.Dump(j.NStates, j.NSyms), Job: jobNo})
 			}()
 		}
 		if j.TransHi > j.TransLo {
-			enc.Encode(Out{Pkg: j.Pkg, Kind: "trans", Trans: p.Translate(j.TransLo, j.TransHi)})
+			enc.Encode(Out{Pkg: j.Pkg, Kind: "trans", Trans: p.Translate(j.TransLo, j.TransHi), Job: jobNo})
 		}
 		fuel := j.Fuel
 		if fuel == 0 {
 			fuel = 5000
 		}
-		for _, in := range j.Inputs {
+		for pos, in := range j.Inputs {
 			var res rt.Result
 			run := rt.Begin(fuel)
+			begin(pos, in)
 			if j.Trace {
 				tr := capture(func() { res = p.Run(in, true, run, true) })
 				res.Trace = tr
 			} else {
 				res = p.Run(in, false, run, true)
 			}
+			end()
 			rt.Cur = nil
-			enc.Encode(Out{Pkg: j.Pkg, Input: in, Kind: "run", Res: &res})
+			enc.Encode(Out{Pkg: j.Pkg, Input: in, Kind: "run", Res: &res, Job: jobNo, Pos: pos})
 		}
-		for _, h := range j.Histories {
+		for hi, h := range j.Histories {
 			var rs []rt.Result
 			var ctx interface{}
 			for k, in := range h {
 				run := rt.Begin(fuel)
+				begin(len(j.Inputs)+hi, in)
 				var res rt.Result
 				switch j.HistoryMode {
 				case "ctx-reinit": // one context, ParserInit() before every parse but the first
@@ -141,10 +186,11 @@ func main() {
 				default: // ParserInit() before every parse
 					res = p.Run(in, false, run, true)
 				}
+				end()
 				rt.Cur = nil
 				rs = append(rs, res)
 			}
-			enc.Encode(Out{Pkg: j.Pkg, Kind: "history", History: h, Results: rs})
+			enc.Encode(Out{Pkg: j.Pkg, Kind: "history", History: h, Results: rs, Job: jobNo})
 		}
 	}
 	w.Flush()
